@@ -63,7 +63,7 @@ CHECKS += [
     other('C19', 'the expectation builder is a typestate machine in TLA+ (Clauses.tla, transcribed from the static_asserts); TLC explores every reachable legal typestate and emits one statement per transition with the diagnostics it must produce; '
                  'every statement is compiled (C++20 all kinds incl. three coroutine kinds, C++14 non-coroutine) and must show exactly that verdict (legal: no error; illegal: the documented message); plus the 68 shipped negative programs against their own pass rules, a fixed catalogue (parameter index beyond arity, MAKE_MOCKn arity, value from matcher, moving a non-movable mock, deathwatched without virtual destructor) and the LONG_MACROS macro-namespace check',
           'TLA+ typestate machine explored by TLC; its state graph is the test plan (one compile test per transition), verdicts compared with g++ diagnostics', '6/C19',
-          'trusted: TLC, g++ 12 diagnostics attribution through "required from here"; clause arguments are well-typed; clang not used in the quick tier', 'tla-clauses'),
+          'trusted: TLC, g++ 12 diagnostics attribution through "required from here"; clause arguments are well-typed; clang 14 (C++14, non-coroutine statements) is a second compiler in the thorough tier', 'tla-clauses'),
 ]
 
 CHECKS += [
